@@ -221,6 +221,134 @@ Example C13_example_inherit :
                             CLeaf "Drift" "d" [("length", PNum 225%float)] ] ]).
 Proof. exact example_inherit. Qed.
 
+(* ================================================================== the importers after the repairs of F18, F40, F41, F42, F43
+   The theorems above are about the transcription of the code as it was ([convert_bmad], [merge_continued], [define_header false]):
+   the _refuted ones document the defects.  Those below are about the transcription of the repaired code
+   ([convert_bmad_v fx] with a switch per repair, [merge_continued_fixed], [define_header true]); harness/props/c13.py compares the
+   implementation with the variant selected, finding by finding, by the status in known_findings.json (known: as it was; fixed:
+   repaired). *)
+(* with every switch off the switched transcription is the transcription of the code as it was *)
+Theorem C13_variant_no_fixes_is_old : forall name ty ps fl root ss,
+  convert_bmad_v no_fixes name ty ps = convert_bmad name ty ps /\ denote_v no_fixes fl root ss = denote fl root ss.
+Proof. exact (fun name ty ps fl root ss => conj (convert_bmad_v_no_fixes name ty ps) (denote_v_no_fixes fl root ss)). Qed.
+
+(* a repair changes nothing outside the element types it is about *)
+Theorem C13_repairs_are_local : forall fx name ty ps,
+  mem ty ["hkicker"; "vkicker"; "sbend"; "ecollimator"] = false ->
+  convert_bmad_v fx name ty ps = convert_bmad name ty ps.
+Proof. exact convert_bmad_v_other_types. Qed.
+
+(* F18 (sbend) repaired: a bend given by its curvature g, without an angle, bends by g * l ... *)
+Theorem C13_bmad_sbend_g_fixed : forall fx name ps t,
+  fx_g fx = true -> has ps "angle" = false ->
+  convert_bmad_v fx name "sbend" ps = Some t ->
+  exists l g, req ps "l" = Some l /\ opt ps "g" zero = Some g /\
+    leaf_param t "angle" = Some (PNum (round32 (PrimFloat.mul g l))).
+Proof. exact bmad_sbend_g_fixed. Qed.
+
+(* ... a given angle keeps its precedence, whatever the switches ... *)
+Theorem C13_bmad_sbend_angle_wins_fixed : forall fx name ps t,
+  has ps "angle" = true ->
+  convert_bmad_v fx name "sbend" ps = Some t ->
+  exists a, opt ps "angle" zero = Some a /\ leaf_param t "angle" = Some (PNum (round32 a)).
+Proof. exact bmad_sbend_angle_wins_fixed. Qed.
+
+(* ... and the witness of C13_bmad_sbend_g_refuted (l = 0.5, g = 1, e1 = 0.1) has angle 0.5 *)
+Theorem C13_bmad_sbend_g_fixed_witness :
+  exists t, convert_v all_fixes Bmad "b" [("e1", PNum 0x1.999999999999ap-4%float); ("g", PNum one); ("l", PNum 0x1p-1%float); ("element_type", PStr "sbend")] = Some t /\
+            leaf_param t "angle" = Some (PNum 0x1p-1%float) /\ leaf_param t "e1" = Some (PNum 0x1.99999ap-4%float).
+Proof. exact bmad_sbend_g_fixed_witness. Qed.
+
+(* F18 (kickers) repaired: a kicker with its own l / kick is a corrector of that length and angle *)
+Theorem C13_bmad_kicker_fixed : forall fx name ps l a,
+  fx_kick fx = true ->
+  understood ["element_type"; "type"; "alias"; "l"; "kick"] ps = true -> opt ps "l" zero = Some l -> opt ps "kick" zero = Some a ->
+  convert_bmad_v fx name "hkicker" ps = Some (CLeaf "HorizontalCorrector" name [("length", PNum (round32 l)); ("angle", PNum (round32 a))]) /\
+  convert_bmad_v fx name "vkicker" ps = Some (CLeaf "VerticalCorrector" name [("length", PNum (round32 l)); ("angle", PNum (round32 a))]).
+Proof. exact bmad_kicker_fixed. Qed.
+
+Theorem C13_bmad_kicker_fixed_witness :
+  convert_v all_fixes Bmad "h" [("kick", PNum 0x1.0624dd2f1a9fcp-10%float); ("l", PNum 0x1.999999999999ap-4%float); ("element_type", PStr "hkicker")]
+    = Some (CLeaf "HorizontalCorrector" "h" [("length", PNum 0x1.99999ap-4%float); ("angle", PNum 0x1.0624dep-10%float)]) /\
+  convert_v all_fixes Bmad "v" [("kick", PNum 0x1.0624dd2f1a9fcp-10%float); ("element_type", PStr "vkicker")]
+    = Some (CLeaf "VerticalCorrector" "v" [("length", PNum zero); ("angle", PNum 0x1.0624dep-10%float)]).
+Proof. exact bmad_kicker_fixed_witness. Qed.
+
+(* F43 repaired: e1 defaults to 0; the witness of C13_bmad_sbend_e1_refuted is accepted *)
+Theorem C13_bmad_sbend_e1_default_fixed : forall fx name ps t,
+  fx_e1 fx = true -> has ps "e1" = false ->
+  convert_bmad_v fx name "sbend" ps = Some t -> leaf_param t "e1" = Some (PNum zero).
+Proof. exact bmad_sbend_e1_default_fixed. Qed.
+
+Theorem C13_bmad_sbend_e1_fixed_witness :
+  exists t, convert_v all_fixes Bmad "b" [("angle", PNum 0x1.999999999999ap-3%float); ("l", PNum 0x1p-1%float); ("element_type", PStr "sbend")] = Some t /\
+            leaf_param t "e1" = Some (PNum zero) /\ leaf_param t "angle" = Some (PNum 0x1.99999ap-3%float).
+Proof. exact bmad_sbend_e1_fixed_witness. Qed.
+
+(* F42 repaired: the Segment of an ecollimator carries the element's name, like that of an rcollimator *)
+Theorem C13_bmad_ecollimator_named_fixed : forall fx name ty ps t,
+  fx_ecol fx = true -> ty = "ecollimator" \/ ty = "rcollimator" ->
+  convert_bmad_v fx name ty ps = Some t -> exists d a, t = CSeg (Some name) [d; a].
+Proof. exact bmad_ecollimator_named_fixed. Qed.
+
+(* F41 repaired: the merging loop has a result for every list of lines (no IndexError) ... *)
+Theorem C13_merge_fixed_total : forall d rm ls, exists out, merge_continued_fixed d rm ls = Some out.
+Proof. exact merge_fixed_total. Qed.
+
+(* ... the same result as before wherever there was one ... *)
+Theorem C13_merge_fixed_agrees : forall d rm ls out,
+  merge_continued d rm ls = Some out -> merge_continued_fixed d rm ls = Some out.
+Proof. exact merge_fixed_agrees. Qed.
+
+(* ... so that the inverse law of C13_merge_split_inverse carries over ... *)
+Theorem C13_merge_split_inverse_fixed : forall (d : ascii) (rm : bool) (ps : list (list str * str)),
+  Forall (fun p => (rm = false -> Forall (fun x => ends_with d x = true) (fst p)) /\
+                   ends_with d (List.concat (fst p) ++ snd p)%list = false) ps ->
+  merge_continued_fixed d rm (List.concat (map (fun p => (map (fun x => if rm then (x ++ [d])%list else x) (fst p) ++ [snd p])%list) ps))
+  = Some (map strip (map (fun p => (List.concat (fst p) ++ snd p)%list) ps)).
+Proof. exact merge_split_inverse_fixed. Qed.
+
+(* ... and on the witnesses of C13_merge_last_line_refuted the statement that runs into the end of the file is kept (with its mark) *)
+Theorem C13_merge_last_line_fixed :
+  merge_continued_fixed comma false [of_s "a,"; of_s "b,"] = Some [of_s "a,b,"] /\
+  merge_continued_fixed comma false [of_s "x"; of_s "a,"; of_s "b,"; of_s "c,"] = Some [of_s "x"; of_s "a,b,c,"] /\
+  merge_continued_fixed amp true [of_s "a &"; of_s "b &"] = Some [of_s "a b &"] /\
+  front_end_fixed [of_s "lat: line = (d, d)"; of_s "d: drift,"; of_s "L = 1,"] = [of_s "lat: line = (d, d)"; of_s "d: drift,l = 1,"].
+Proof. exact merge_last_line_fixed. Qed.
+
+(* F40: the head  NAME s1 : s2 TYPE sp , REST  of an element definition (s1, s2, sp white space; define_element's pattern).
+   As it was, it is matched without white space in front of the comma and rejected (AttributeError) with any ... *)
+Theorem C13_define_header_space_refuted : forall name s1 s2 ty sp rest,
+  name <> [] -> forallb name_char name = true -> ty <> [] -> forallb type_char ty = true ->
+  forallb is_space s1 = true -> forallb is_space s2 = true -> forallb is_space sp = true -> sp <> [] ->
+  define_header false (name ++ s1 ++ ":"%char :: s2 ++ ty ++ sp ++ ","%char :: rest)%list = None.
+Proof. exact define_header_space_refuted. Qed.
+
+Theorem C13_define_header_nospace : forall name s1 s2 ty rest,
+  name <> [] -> forallb name_char name = true -> ty <> [] -> forallb type_char ty = true ->
+  forallb is_space s1 = true -> forallb is_space s2 = true -> existsb newline rest = false ->
+  define_header false (name ++ s1 ++ ":"%char :: s2 ++ ty ++ [] ++ ","%char :: rest)%list = Some (name, ty, Some rest).
+Proof. exact define_header_nospace. Qed.
+
+(* ... repaired, white space there is accepted and the properties are what follows the comma; nothing else changes *)
+Theorem C13_define_header_fixed_space : forall name s1 s2 ty sp rest,
+  name <> [] -> forallb name_char name = true -> ty <> [] -> forallb type_char ty = true ->
+  forallb is_space s1 = true -> forallb is_space s2 = true -> forallb is_space sp = true -> existsb newline rest = false ->
+  define_header true (name ++ s1 ++ ":"%char :: s2 ++ ty ++ sp ++ ","%char :: rest)%list = Some (name, ty, Some rest).
+Proof. exact define_header_fixed_space. Qed.
+
+Theorem C13_define_header_fixed_agrees : forall line r,
+  define_header false line = Some r -> define_header true line = Some r.
+Proof. exact define_header_fixed_agrees. Qed.
+
+Example C13_define_header_examples :
+  define_header false (of_s "q: quad , l = 0.1, k1 = 2") = None /\
+  define_header true (of_s "q: quad , l = 0.1, k1 = 2") = Some (of_s "q", of_s "quad", Some (of_s " l = 0.1, k1 = 2")) /\
+  define_header true (of_s "m.1 :mark") = Some (of_s "m.1", of_s "mark", None) /\
+  define_header true (of_s "lat: line = (a, b)") = None.
+Proof. exact define_header_examples. Qed.
+
+
 End T.
 
 Print Assumptions T.C13_expand_is_inorder.
@@ -255,3 +383,22 @@ Print Assumptions T.C13_nx_total_length.
 Print Assumptions T.C13_nx_overlap_rejected.
 Print Assumptions T.C13_example_fodo.
 Print Assumptions T.C13_example_inherit.
+Print Assumptions T.C13_variant_no_fixes_is_old.
+Print Assumptions T.C13_repairs_are_local.
+Print Assumptions T.C13_bmad_sbend_g_fixed.
+Print Assumptions T.C13_bmad_sbend_angle_wins_fixed.
+Print Assumptions T.C13_bmad_sbend_g_fixed_witness.
+Print Assumptions T.C13_bmad_kicker_fixed.
+Print Assumptions T.C13_bmad_kicker_fixed_witness.
+Print Assumptions T.C13_bmad_sbend_e1_default_fixed.
+Print Assumptions T.C13_bmad_sbend_e1_fixed_witness.
+Print Assumptions T.C13_bmad_ecollimator_named_fixed.
+Print Assumptions T.C13_merge_fixed_total.
+Print Assumptions T.C13_merge_fixed_agrees.
+Print Assumptions T.C13_merge_split_inverse_fixed.
+Print Assumptions T.C13_merge_last_line_fixed.
+Print Assumptions T.C13_define_header_space_refuted.
+Print Assumptions T.C13_define_header_nospace.
+Print Assumptions T.C13_define_header_fixed_space.
+Print Assumptions T.C13_define_header_fixed_agrees.
+Print Assumptions T.C13_define_header_examples.
